@@ -5,9 +5,29 @@ CFG = {
     "exe": "geomv_c17",
     "go_cmd": "c17",
     "stages": ["go:gen", "go:impl", "lean:judge"],
-    "theorems": [],
-    "trusted_base": [],
-    "assumptions": [],
-    "rule": "",
+    "theorems": [T + n for n in ["C17_roundtrip", "C17_unsupported", "C17_guard_exact", "C17_guard_emitted",
+                                 "C17_numfmt_int"]],
+    "trusted_base": [
+        "Lean 4.33.0 kernel; axioms of every theorem printed by #print axioms must be within {propext, Classical.choice, Quot.sound}",
+        "model lean/GeomV/C17/Model.lean is tied to /repo/encoding/wkt by the correspondence run on every check: byte-exact comparison of "
+        "wkt.Encode's output with the model's text, the model's number formatter being Go's own strconv 'g' rendering of each coordinate",
+        "strconv.AppendFloat(x,'g',-1,64) satisfies the NumFmt contract (non-empty token over [0-9+-.eE] denoting exactly x for finite x): "
+        "hypothesis of C17_roundtrip, instance proved for Int rendering (C17_numfmt_int), and checked at run time on every generated coordinate "
+        "with the driver's exact decimal->binary64 rounding (lean/GeomV/C17/Dec.lean), itself cross-validated against strconv.ParseFloat on "
+        "non-shortest literals incl. exact ties",
+        "the reading of OGC 06-103r4 section 7.2.2 into lean/GeomV/C17/Spec.lean (2-D productions, white space optional between tokens, "
+        "letters case-insensitive)",
+        "harness/cmd/c17 + lean driver + lib/vcheck.py transport inputs faithfully",
+    ],
+    "assumptions": ["nil slices and empty slices are not distinguished; nil interface values are outside the property (reflect.TypeOf(nil))",
+                    "non-finite coordinates (rendered NaN/+Inf/-Inf by strconv) are outside the statement: compared with the model only"],
+    "rule": "fixed corpus (each type, multi-member nestings, guard boundary, unsupported types, exponent-notation boundaries 1e21/1e-4, -0, "
+            "subnormals, 17-digit values) + grammar-generated geometries of the five types (member counts 1..6, ring counts 1..4, occasionally 17..300) "
+            "with coordinates from {arbitrary finite 64-bit patterns, subnormals, -0, values within 3 ulp of 1e21/1e20/1e-4/1e-5/1e-7, integers, "
+            "17-significant-digit values, 2^e sweep, quarter grid}; 5% each: empty members, non-finite, unsupported types; plus decimal-literal "
+            "cross-validation cases (class numconv). distinct = distinct input line; non-trivial = verdict class not 'skipped'",
     "timeout": {"quick": 600, "thorough": 3000},
+    "explanation": "Each real wkt.Encode output is (1) parsed by the independent Lean OGC parser with exact round-to-nearest-even number "
+                   "conversion and compared bit-for-bit with the input geometry (SPEC), each number token additionally checked to be the "
+                   "shortest round-tripping literal, and (2) compared byte-for-byte with the model's text (DIFF).",
 }
